@@ -203,7 +203,7 @@ def _local_fires(script, i, half):
     return ",".join(fix(st) for st in script.split(",")) if script else script
 
 
-def gen_nest(rng, count, tag, panic=0.02, combs=None, local=False):
+def gen_nest(rng, count, tag, panic=0.02, combs=None, local=False, long=False):
     """two inner combinators over the two halves of the leaves, one outer combinator over them (harness build_nest).  Monitor-only suites and
        the *-nest-sim suites (the composed model coq/Model/Nest.v nest_run predicts the leaf-level trace of all nine kinds).  local=True: no leaf wakes a leaf of the other inner combinator from inside a poll"""
     out = []
@@ -213,22 +213,40 @@ def gen_nest(rng, count, tag, panic=0.02, combs=None, local=False):
         cont = "nest"
         if rng.random() < 0.4:       # the array impls of the crate: outer [_; 2] over inner [_; n/2] (the same slice algorithms: the same model)
             n = rng.choice([2, 4, 4, 6]); cont = rng.choice(["nesta", "nesta", "nestt"])       # nestt: the tuple impls (2-tuple over n/2-tuples; for join the tuple algorithm on both levels)
-        if comb in NESTS_FUT:
+        if long:        # leaves with long lives (self-waking), the nest polled until everything has been consumed
+            n = rng.choice([2, 3, 4]) if cont == "nest" else rng.choice([2, 4])
+            ml = rng.randint(10, 30)
+            scs = [fscript(rng, n, i, comb == "nest_tt", 0.0, drain=True, maxlen=ml) if comb in NESTS_FUT else sscript(rng, n, i, 0.0, drain=True, maxlen=ml) for i in range(n)]
+        elif comb in NESTS_FUT:
             scs = [fscript(rng, n, i, comb == "nest_tt", panic) for i in range(n)]
         else:
             scs = [sscript(rng, n, i, panic) for i in range(n)]
         if local:
             scs = [_local_fires(sc, i, n // 2) for i, sc in enumerate(scs)]
+        if long:
+            total = sum(len(x.split(",")) for x in scs)
+            ops = []
+            for _ in range(total + 3):
+                ops.append("p" if rng.random() < 0.85 else "q")
+                if rng.random() < 0.1:
+                    ops.append(f"f{rng.randrange(n)}.{rng.randrange(3)}")
         scs = ";".join(scs)
-        ops = ops_executor(rng, n) if rng.random() < 0.5 else ops_adversarial(rng, n)
+        if not long:
+            ops = ops_executor(rng, n) if rng.random() < 0.5 else ops_adversarial(rng, n)
         out.append(f"{tag}{c} {comb} {cont} n={n} {scs} | {' '.join(ops)}")
     return out
 
 
-def gen_wait(rng, count, tag, panic=0.03):
+def gen_wait(rng, count, tag, panic=0.03, long=False):
+    """long: a deadline that answers Pending up to 30 times, an inner future / stream of up to 60 steps, polled to the very end"""
     out = []
     for c in range(count):
         comb = rng.choice(["wait_fut", "wait_stream"])
+        if long:
+            scs = fscript(rng, 2, 0, False, 0.0, drain=True, maxlen=30) + ";" + (fscript(rng, 2, 1, False, 0.0, drain=True, maxlen=40) if comb == "wait_fut" else sscript(rng, 2, 1, 0.0, drain=True, maxlen=60))
+            ops = ["p" if rng.random() < 0.85 else "q" for _ in range(scs.count(",") + 5)]
+            out.append(f"{tag}{c} {comb} ext n=2 {scs} | {' '.join(ops)}")
+            continue
         scs = fscript(rng, 2, 0, False, panic) + ";" + (fscript(rng, 2, 1, False, panic) if comb == "wait_fut" else sscript(rng, 2, 1, panic))
         ops = ops_executor(rng, 2) if rng.random() < 0.5 else ops_adversarial(rng, 2)
         out.append(f"{tag}{c} {comb} ext n=2 {scs} | {' '.join(ops)}")
